@@ -454,7 +454,7 @@ func run(args []string) error {
 	f := ParseFlags("c19", args)
 	logging.Disable()
 	r := NewRng(f.Seed)
-	nseq := f.Budget(150, 1200)
+	nseq := f.Budget(100, 1200)
 	base := ""
 	if st, e := os.Stat("/dev/shm"); e == nil && st.IsDir() {
 		base = "/dev/shm"
